@@ -16,11 +16,12 @@ FN = {"equal": "assert_equal", "not_equal": "assert_not_equal", "less": "assert_
       "is_not": "assert_is_not", "is_instance": "assert_is_instance", "not_is_instance": "assert_not_is_instance",
       "regex": "assert_regex", "not_regex": "assert_not_regex", "output": "assert_output", "not_output": "assert_not_output",
       "output_contains": "assert_output_contains", "not_output_contains": "assert_not_output_contains",
-      "type": "assert_type", "not_type": "assert_not_type"}
+      "type": "assert_type", "not_type": "assert_not_type",
+      "output_exact": "assert_output", "not_output_exact": "assert_not_output"}
 NEG = {"type": "not_type", "not_type": "type"}
-SAY = {"o:abc": "print('abc')", "o:ABC!": "print('ABC!')", "o:abd": "print('abd')", "o:none": "pass", "o:two": "print('abd')\n    print('abc')"}
+SAY = {"o:abcnn": "print('abc')\n    print()", "o:abc": "print('abc')", "o:ABC!": "print('ABC!')", "o:abd": "print('abd')", "o:none": "pass", "o:two": "print('abd')\n    print('abc')"}
 OUT_TEXT = {"abc": "abc", "ABC": "ABC", "abc!": "abc!", "abd": "abd", "empty": "", "two": "abc\nabd"}
-OUT_FAMILY = {"output", "not_output", "output_contains", "not_output_contains"}
+OUT_FAMILY = {"output", "not_output", "output_contains", "not_output_contains", "output_exact", "not_output_exact"}
 EXTRA = {"t:int": int, "t:float": float, "t:str": str, "t:list": list, "t:bool": bool, "t:tuple": tuple,
          "re:ab.": "ab.", "re:^b": "^b", "re:z": "z", "re:[0-9]": "[0-9]",
          "t:dict": dict, "s:int": "int", "s:str": "str", "s:list": "list", "g:list_int": list[int], "sg:list_int": "list[int]",
@@ -106,6 +107,8 @@ def run_case(w, rec, wl, wr, kw=None):
     fn = getattr(RT, FN[rec["a"]])
     if kw:
         fn = functools.partial(fn, **PRESENTATION[kw])
+    if rec["a"].endswith("_exact"):
+        fn = functools.partial(fn, exact_strings=True)
     if rec["a"] in OUT_FAMILY:
         # the execution is always the result of a real call(); the expected text is an instructor-side string
         left = w.S.call("raises") if rec["l"] == "err" else w.S.call("exits") if rec["l"] == "errx" else w.S.call(SAYER[rec["l"]])
